@@ -130,3 +130,39 @@ def run(run, P):
         run.stats['lockowner_solver_steps'] += ctx.steps
         nwrites += cnt[0]
     run.require(nwrites >= 2 or run.fixture_mode, 'R-LOCK-OWNER: fewer than 2 owner-field writes found in the lock primitives')
+
+
+def run_init_once(run, P):
+    """R-LOCK-OWNER (initialised once): (re)initialising the global lock's mutex while another thread holds it hands the lock to nobody and to
+    everybody: the holder keeps running inside the library, the next caller gets the fresh mutex and runs beside it.  The library's
+    start-up function may be called again at any time (every worker thread calling coap_startup() first is documented as harmless), so
+    every statement that initialises the lock object's mutex (memset over it, pthread_mutex_init / coap_mutex_init on it) is control
+    dependent on a branch that tests a global flag -- the once-guard `if (coap_started) return;` -- i.e. it cannot run on the path a
+    repeated call takes."""
+    from core.prog import transitive_control_deps
+    run.rule('R-LOCK-OWNER')
+    objs = lock_records(P)
+    if not objs:
+        run.require_count(run.fixture_mode, 'R-LOCK-OWNER(init once): no lock record type found')
+        return
+    n = 0
+    for f in sorted(P.lib_funcs(), key=lambda f: f['name']):
+        B = f['B']
+        for b in f['blocks']:
+            for ev in b['elems']:
+                t = ev['e']
+                if not (ev.get('top', True) and t.get('k') == 'call' and t.get('fn') and ('init' in t['fn'] or t['fn'] == 'memset') and _mutex_arg(t, objs)):
+                    continue
+                n += 1
+                guarded = False
+                for (c, idx) in transitive_control_deps(f, b['id']):
+                    cond = (B[c].get('term') or {}).get('cond')
+                    if cond is not None and any(isinstance(x, dict) and x.get('k') == 'var' and x.get('g') for x in walk(cond)):
+                        guarded = True
+                run.instance('R-LOCK-OWNER', '%s: %s() on the lock\'s mutex sits behind a once-guard on a global flag' % (f['name'], t['fn']))
+                run.oblige('R-LOCK-OWNER', guarded, '%s:lock-initialised-once' % f['name'])
+                if not guarded:
+                    run.violation('R-LOCK-OWNER', f['name'], ev['loc'], 'lock-reinitialised-on-every-call:%s' % t['fn'],
+                                  '%s() (re)initialises the global lock\'s mutex on a path that no test of a global once-flag controls: a second call of %s() while another '
+                                  'thread is inside the library unlocks that thread\'s mutex under it' % (t['fn'], f['name']), [])
+    run.require_count(n >= 1 or run.fixture_mode or run.cfg != 'base', 'R-LOCK-OWNER(init once): no initialisation of the global lock\'s mutex found (thread-safe build expected)')
